@@ -1,5 +1,6 @@
 import FranzVerif.Proof.C16b
 import FranzVerif.Proof.C16c
+import FranzVerif.Proof.C16e
 import FranzVerif.Proof.C15f
 import FranzVerif.Gen.Schema
 /-! C16 — protocol decoders are total and bounded.
@@ -42,6 +43,35 @@ theorem alloc_requests_bounded (l : Int) (cap : Nat) (m : String) (h : goMake l 
   · split at h
     · right; assumption
     · cases h
+
+/-! ### Re-encoding a decoded value -/
+
+/-- **A successfully decoded value is already in normal form** at its version (for every schema whose tagged fields are not
+versioned-nullable arrays, `schema_tags_ok`): nothing a decoder produces is changed by `canon`. -/
+theorem decoded_is_normal_form (t : Ty) (c : Cfg) (flex : Bool) (src : Bytes) (v : Val) (r : Bytes)
+    (hok : Proof.C16.tagsOK t = true) (h : dec c flex t src = .ok v r) : canon c.ver t v = v :=
+  Proof.C16.canonFix t c flex src v r hok h
+
+/-- Full statement: `decode (encode (decode b)) = decode b` whenever the first decode succeeds.
+Proved here with the extra hypothesis that the decoded value is in the encoder's domain (`enc … = some bs`: lengths below the
+prefix limits, which decoded values satisfy but which is not yet proved generically — hence `_partial`): re-encoding the decoded
+value and decoding again (with any suffix) gives back exactly the decoded value. The harness computes the same check on the Go
+code for every successfully decoded input (`r=1`). -/
+theorem reencode_stable_partial (t : Ty) (c : Cfg) (flex : Bool) (src : Bytes) (v : Val) (r bs rest : Bytes)
+    (hv : 0 ≤ c.ver) (hs : schemaOK c.ver t = true) (hok : Proof.C16.tagsOK t = true)
+    (h : dec c flex t src = .ok v r) (henc : enc c.ver flex t v = some bs) (hcap : bs.length + rest.length ≤ c.cap) :
+    dec c flex t (bs ++ rest) = .ok v rest := by
+  have h1 := Proof.C15.decEnc t c flex v bs rest hv hs henc hcap
+  rw [decoded_is_normal_form t c flex src v r hok h] at h1
+  exact h1
+
+def tagsCheck : Bool := Gen.Schema.all.all fun top => Proof.C16.tagsOK top.ty
+
+set_option maxRecDepth 100000 in
+/-- Tie T obligation: no tagged field of the current definitions is a versioned-nullable array. -/
+theorem schema_tags_ok : ∀ top ∈ Gen.Schema.all, Proof.C16.tagsOK top.ty = true := by
+  have h : tagsCheck = true := by decide +kernel
+  simpa [tagsCheck, List.all_eq_true] using h
 
 /-! ### Time: the tag-count loop (DESIGN §8-i) — recorded, not part of C16's text -/
 
